@@ -23,7 +23,7 @@ Next == UNCHANGED g
 Spec == Init /\ [][Next]_g
 
 CodesRep    == {100, 199, 200, 404, 699, 999}
-CodesRep0   == {0} \cup CodesRep          \* to be used once Request() of a "000" reply is fixed
+CodesRep0   == {0} \cup CodesRep          \* incl. 000 (Request() of a "000" reply was fixed in /repo 145657d)
 CodesAll    == 1..999
 CodesAll0   == 0..999
 Codes000    == {0}
